@@ -1,1 +1,34 @@
 //! Verification doors: rules (cfg(trusttunnel_verif) only)
+
+use crate::core::Core;
+use crate::rules::RuleEvaluation;
+use crate::settings::Settings;
+use std::net::IpAddr;
+
+/// `Core::evaluate_connection_rules` (the function both accept paths call) for an
+/// arbitrary peer address and client random. `true` = the connection is admitted.
+pub fn evaluate_connection_rules(core: &Core, peer: IpAddr, random: Option<&[u8]>) -> bool {
+    core.verif_evaluate_connection_rules(Some(peer), random)
+}
+
+/// The public `RulesEngine::evaluate` of the engine that settings deserialisation built.
+/// `None` = the settings carry no engine at all.
+pub fn engine_evaluate(settings: &Settings, ip: IpAddr, random: Option<&[u8]>) -> Option<bool> {
+    settings
+        .rules_engine
+        .as_ref()
+        .map(|e| e.evaluate(&ip, random) == RuleEvaluation::Allow)
+}
+
+/// Number of rules the engine holds after loading (rules dropped at load time are not counted)
+pub fn engine_rule_count(settings: &Settings) -> Option<usize> {
+    settings.rules_engine.as_ref().map(|e| e.config().rule.len())
+}
+
+/// JSON rendering of an optional client random for hook events: `null` or a hex string
+pub fn json_random(r: Option<&[u8]>) -> String {
+    match r {
+        None => "null".to_string(),
+        Some(b) => format!("\"{}\"", hex::encode(b)),
+    }
+}
